@@ -14,12 +14,14 @@ use std::time::Instant;
 fn menu() -> Vec<Sig> {
     vec![
         Sig::inp("A", 4, 9),
-        Sig::inp_z("B", 4),
+        // inputs of different widths: a value is reduced by the width of the signal its column is bound to
+        Sig::inp_z("B", 2),
         Sig::bidir("D", 4, V::Num(6)),
         Sig::out("Q", 1),
         Sig::out("R", 2),
         Sig::out("A_out", 4),
-        Sig::inp("E", 4, 1),
+        // a one-bit input whose name differs from the bidirectional D only in case
+        Sig::inp("d", 1, 1),
         Sig::bidir("A", 8, V::Num(2)),
         // a name that has another bidirectional name as a prefix
         Sig::bidir("DQ", 4, V::Num(3)),
